@@ -147,9 +147,6 @@ theorem TopCtx.frame {s s' : St} (h : TopCtx s) (hf : Frame s s') : TopCtx s' :=
   ⟨by rw [hf.linear]; exact h.lin, by rw [hf.curfunc, hf.fns _ h.cur]; exact h.par,
    by rw [hf.curfunc]; exact Nat.lt_of_lt_of_le h.cur hf.fnsLen, Nat.lt_of_lt_of_le h.main hf.fnsLen⟩
 
-/-- the id map extended by a new closure object -/
-def mapWith (m : Nat → Nat) (vid cid : Nat) : Nat → Nat := fun id => if id = vid then cid else m id
-
 theorem simF_defn {n : Nat} (name : String) (ps : List String) (body : List Expr)
     (hform : FtForm (.defn name ps none body) = true) (isFn : Nat → Bool) (c : Ctx) (gs : GS)
     (r : (List Instr × Bool) × GS) (hc : (compile isFn c (.defn name ps none body)).run gs = .ok r)
@@ -200,29 +197,19 @@ theorem simF_defn {n : Nat} (name : String) (ps : List String) (body : List Expr
     rw [List.getElem?_append_left (lt_of_getElem?_some hc')]; exact hc'
   have hmext : MExt s m (mapWith m s.fns.length rs.clos.length) := fun id hid => by
     unfold mapWith; rw [if_neg (by omega)]
+  have hk01 : FnsKeep s s₁ := FnsKeep.of_eq hfl1 hfo1 htop.main
   have rel1 : RelF (mapWith m s.fns.length rs.clos.length) s₁ rs₁ 0 :=
-    hrel.grow (by subst hs1; rfl) (by subst hs1; rfl) (by subst hs1; rfl) (by subst hs1; rfl) (by subst hs1; rfl)
-      hfl1 hfo1 (by subst hrs1; rfl) (by subst hrs1; rfl) (by subst hrs1; rfl) hclos1 hmext
+    hrel.grow (by subst hs1; rfl) (by subst hs1; rfl) (by subst hs1; rfl) (by subst hs1; rfl)
+      (by subst hs1; subst hrs1; exact hrel.trace) hk01 (by subst hrs1; rfl) (by subst hrs1; rfl) hclos1 hmext
   -- the new closure object is good
-  have hcn : closingNow s = [some 0] := by unfold closingNow; rw [htop.lin]; exact newClosing_single _
   have hmv : mapWith m s.fns.length rs.clos.length s.fns.length = rs.clos.length := by unfold mapWith; rw [if_pos rfl]
-  have hgood : GoodFn (mapWith m s.fns.length rs.clos.length) s₁ rs₁ s.fns.length := by
-    refine ⟨by rw [hfns1]; simp, htop.main, { ps := ps, rest := none, body := body, env := 0 }, ?_, rfl, rfl, hnd,
-      hps, hbody, ?_, ?_, ?_, ?_, ?_, ⟨s.curfunc, ?_, htop.cur, ?_⟩,
-      gs.fns.length, b, tl, isFn, bodyCtx c gs name ps body, gsAlloc isFn gs name ps, gsAlloc isFn gs name ps, name,
-      ?_, Nat.lt_of_lt_of_le htl hfl1, ?_, hb, rfl, bodyCtx_funcname c gs name ps body, hff⟩
-    · rw [hmv]; subst hrs1; show (rs.clos ++ [_])[rs.clos.length]? = _; simp
-    · rw [hnew1]; show (fnOf s gs.fns.length).params = ps; rw [hTd]; rfl
-    · rw [hnew1]; show (fnOf s gs.fns.length).nargs = ps.length; rw [hTd]; rfl
-    · rw [hnew1]; show (fnOf s gs.fns.length).varargs = false; rw [hTd]; rfl
-    · rw [hnew1]; show (fnOf s gs.fns.length).user = false; rw [hTd]; rfl
-    · rw [hnew1]; exact hcn
-    · rw [hnew1]; rfl
-    · rw [hfo1 _ htop.cur]; exact htop.par
-    · rw [hnew1]; show (fnOf s gs.fns.length).code = _; rw [hTd]; rfl
-    · rw [hfo1 _ htl, hTd]
-      show newClosing isFn gs.live = [some 0]
-      rw [hlive]; exact newClosing_single _
+  have hgood : GoodFn (mapWith m s.fns.length rs.clos.length) s₁ rs₁ s.fns.length :=
+    GoodFn.create hrel gs.fns.length { ps := ps, rest := none, body := body, env := 0 } htop.main rfl rfl hnd hps hbody
+      (by rw [hTd]; rfl) (by rw [hTd]; rfl) (by rw [hTd]; rfl) (by rw [hTd]; rfl) htl
+      (by rw [hTd]; show newClosing isFn gs.live = [some 0]; rw [hlive]; exact newClosing_single _)
+      ⟨b, tl, isFn, bodyCtx c gs name ps body, gsAlloc isFn gs name ps, gsAlloc isFn gs name ps, name,
+        by rw [hTd]; rfl, hb, rfl, bodyCtx_funcname c gs name ps body, hff⟩
+      s₁ rs₁ hs1.symm hrs1.symm
   -- popStackPutEnv name
   have a1 : At s₁ (pre ++ [.createClosure gs.fns.length]) (.popStackPutEnv name) ([.push .nil] ++ post) := by
     subst hs1
@@ -479,7 +466,7 @@ theorem relF_initSt (m : Nat → Nat) : RelF m initSt Ref.initSt 0 := by
     cases i with
     | zero => omega
     | succ i => rfl
-  refine ⟨rfl, ?_, ⟨_, rfl, rfl, rfl⟩, ⟨false, ChainF.root _ rfl rfl rfl, FnChainF.root 0 (by decide) rfl ⟨[], rfl⟩⟩, ?_,
+  refine ⟨rfl, ?_, ⟨_, rfl, rfl, rfl⟩, ?_, rfl, ⟨none, ChainF.root _ rfl rfl rfl, FnChainF.root _ 0 (by decide) rfl ⟨[], rfl⟩⟩, ?_,
     rfl, rfl, globals_initSt, ?_, fun _ _ _ _ _ _ _ => rfl⟩
   · intro i x
     cases i with
@@ -493,6 +480,12 @@ theorem relF_initSt (m : Nat → Nat) : RelF m initSt Ref.initSt 0 := by
       | some v =>
         rcases initVars_lookup x v hl with rfl | ⟨rfl, _⟩ <;> rfl
     | succ i => rfl
+  · intro i fr hf p hp
+    cases i with
+    | zero =>
+      simp only [Ref.initSt, List.getElem?_cons_zero, Option.some.injEq] at hf
+      subst hf; cases hp
+    | succ i => simp [Ref.initSt] at hf
   · intro i hi
     cases i with
     | zero => cases hi
